@@ -56,6 +56,11 @@ func NewSlice3(base unsafe.Pointer, eltSize, cap, i, j, k int) (s Slice) {
 // SliceAppend append elem data and returns a slice.
 func SliceAppend(src Slice, data unsafe.Pointer, num, etSize int) Slice {
 	if etSize == 0 {
+		// zero-size elements need no storage, but the length still grows
+		src.len += num
+		if src.cap < src.len {
+			src.cap = src.len
+		}
 		return src
 	}
 	oldLen := src.len
